@@ -37,6 +37,7 @@ fixed("C10","C10|command|smpp34.Bind|flavour; C10|resp-type|smpp34.Bind|flavour"
 fixed("C10","C10|dispatch|smpp34.UnBindResp|unsupported; C10|dispatch|sgip12.UnbindResp|unsupported; C10|dispatch|cmpp20.PduQuery(Resp)|unsupported","a35895d","dispatchers did not know PDUs their packages encode")
 fixed("C10","C10|resp-seq|sgip12.*|word=0/1","5a1a4cd","SGIP responses carried time.Now() / the sequence id instead of the request's three sequence words")
 fixed("C16","C16|add-lost|smgp.Options|nil-map","d1ea293","Options.Add on a nil map was lost (value receiver)")
+fixed("C11","C11|reencode|sgip12.{Submit,Deliver}|error (found by the 386 platform leg; does not occur where int has 64 bits)","1b75e0a","on platforms with a 32-bit int the sgip12 submit/deliver decoders converted a Message_Length above MaxInt32 to a negative int, which the reader takes for 'nothing to read': a PDU announcing more than 2 GiB of content was accepted with an empty body and could not be encoded again")
 fixed("C06","C06|reported-coding|{cmpp20,cmpp30,smpp}/UCS2|req=invalid-number","f2cc1a6","split entry points reported the caller's unsupported data-coding number although the parts are UCS-2")
 fixed("C14","C14|part-undecodable|*/UCS2|surrogate-pair; */GB18030|multi-octet-char; smpp/GSM7-unpacked|escape-pair","ab5c7c5","generic splitter cut surrogate pairs, GB18030 characters and unpacked GSM-7 escape pairs in two at 134/153")
 fixed("C02","C02|decode|smgp30.Submit|field=DestTermID; C02|decode|sgip12.Submit|field=UserNumber (decode into a reused PDU value)","REUSED","smgp30.Submit / sgip12.Submit IDecode appended destinations to those of the previous PDU when the value was reused")
